@@ -19,8 +19,9 @@ RULE = ("generated npm universes (packages, versions, four dependency sections +
         "or an alias, and resolutions whose two graphs are equal and have more than two nodes")
 TRUSTED = [
     "Coq 8.16.1 kernel; vm_compute for the examples and the constants obligation",
-    "translator harness/go/cmd/gotables (attribute keys, api System and VersionType numbers regenerated from the Go "
-    "sources each run)",
+    "translator harness/go/cmd/gotables (attribute keys, api System and VersionType numbers, and the lock table "
+    "api_map_functions: per function of api.go touching a.bundledVersions, whether it writes the map and which methods "
+    "of bundledVersionsMu it calls; regenerated from the Go sources each run)",
     "extraction (ExtrOcamlBasic only) + Extract/driver.ml; Go harness cmd/implrun (apiclient.go: fake Insights service, "
     "recording client, LocalClient loader written from the property text); python generator and oracle",
     "resolve.MatchRequirement (semver matching) enters the model as a table computed by the Go side per universe",
@@ -32,8 +33,11 @@ ASSUMPTIONS = [
     "the service is a function: the same request gets the same response during one resolution (Section variable svc)",
     "concrete versions and package names served by the service contain no '>' byte (hypothesis svc_plain of the "
     "commutation and interleaving theorems)",
-    "critical sections are atomic steps in the model; physical data races and the Go memory model are outside it and "
-    "are covered only by the -race runs",
+    "critical sections are atomic steps in the model. Properties/C18_lock.v justifies that for the map itself: with "
+    "the lock modes read from api.go (a function that writes the map calls Lock, one that reads it calls Lock or "
+    "RLock, in the same function as the access) no two critical sections of which one writes can overlap; the shared-"
+    "lock writer and the unlocked reader are refuted variants. The semantics of sync.(RW)Mutex, the Go memory model, "
+    "and data reachable through stored values after unlocking stay outside and are covered only by the -race runs",
     "sort.Slice is modelled as a stable insertion sort, which is what Go runs for at most 12 elements; 19 in 20 "
     "universes stay within that range and are compared exactly, 1 in 20 has 13-20 flattened dependencies and/or "
     "bundled entries in one response and is compared up to the order of each returned list (clauses and graphs are "
@@ -62,7 +66,9 @@ MANIFEST = dict(
           "commute; under every interleaving of atomic calls each client following the trace discipline gets its "
           "sequential answers, and cannot tell the lazy API client from an eager pre-loaded one; every dependency type "
           "built by Clone of a section type (+KnownAs) is observationally equal (IsRegular, GetAttr for every key, Equal, "
-          "Compare) to the same type built from the zero value, in particular a cloned empty set is regular; a program observing its "
+          "Compare) to the same type built from the zero value, in particular a cloned empty set is regular; with the lock "
+          "modes regenerated from api.go, critical sections touching the bundle map never overlap when one writes "
+          "(writer exclusive, readers locked); a program observing its "
           "client only through the four calls returns equal results on observationally equal clients. Tied to the code by "
           "differential execution (call histories and the resolver's own call traces); clauses, graph(API)=graph(Local) "
           "and 16-goroutine runs (also -race) evaluated directly on Go."),
